@@ -200,36 +200,95 @@ Proof.
   - reflexivity.
 Qed.
 
-(* ---------------------------------------------------------------------------------------------- *)
-(* entrance counter *)
-Definition erange (c : ecfg) (s : est2) : Prop := 0 <= e_last (e2 s) <= e_cap c.
-
-Lemma ehit_range c s t : 0 <= e_last s <= e_cap c -> 0 <= e_last (ehit c s t) <= e_cap c.
+(* a device in which a switch has been active for the count delays is never reported empty: in particular a lone ball
+   that comes to rest on the jam switch of an EMPTY device is counted (the "keep the previous count" rule of the
+   only-jam-switch case applies to a previous count other than 0 only) *)
+Lemma stable_nonempty_counted_l c evs t :
+  let s := crun c (cinit c) evs in
+  ready_at c (sws s) <= t -> 1 <= nactive (sws s) -> 1 <= last (settle c s t).
 Proof.
-  intros H. unfold ehit. destruct (t <? e_until s); [assumption|].
-  destruct (e_cap c <=? e_last s) eqn:E; cbn [e_last]; [assumption|]. apply Z.leb_gt in E. lia.
+  cbn zeta. intros Hr Hn. destruct (stable_state_reported_l c evs t Hr) as [_ [E|[E _]]]; [lia|].
+  unfold jam_only in E. apply andb_true_iff in E as [_ E]. apply negb_true_iff in E. apply Z.eqb_neq in E.
+  destruct (cinit_inv c) as [R [X _]]. destruct (crun_inv c _ evs R X) as [R' _].
+  pose proof (settle_range c _ t R') as Q. unfold range_inv in Q. lia.
 Qed.
 
-Lemma estep_range c s e : erange c s -> erange c (estep c s e).
+Lemma lone_ball_counted_l c s now :
+  last s = 0 -> nactive (sws s) = 1 -> last (recount c s now) = 1 /\ unrel (recount c s now) = false.
 Proof.
-  unfold erange. intros H. destruct e as [t|t]; cbn [estep e2 e_last].
-  - apply ehit_range; assumption.
-  - apply (ehit_range c (mkes (e_last (e2 s)) (e_until_ev s) (e_nent (e2 s))) t). assumption.
+  intros L N. unfold recount. unfold jam_only. rewrite L, N. cbn [Z.eqb negb andb].
+  rewrite andb_false_r. cbn [Z.ltb Z.compare Z.sub Z.to_nat Z.add Z.opp Z.pos_sub].
+  match goal with |- context [classify ?a ?b ?k ?d ?e ?g] => destruct (classify a b k d e g) as [[en ne] nu] end.
+  cbn [last unrel]. split; reflexivity.
+Qed.
+
+(* ---------------------------------------------------------------------------------------------- *)
+(* entrance counter *)
+Definition erange (c : ecfg) (s : est) : Prop := 0 <= e_last s <= e_cap c.
+
+Lemma ehit_range c s t k : erange c s -> erange c (ehit c s t k).
+Proof.
+  unfold erange. intros H. unfold ehit. destruct (in_window (e_win s) k t); [assumption|].
+  destruct (e_cap c <=? e_last s) eqn:E; cbn [e_last]; [assumption|]. apply Z.leb_gt in E. lia.
 Qed.
 
 Lemma entrance_count_in_range_l c evs : 0 <= e_cap c -> erange c (erun c einit evs).
 Proof.
   intros H. assert (G : forall s, erange c s -> erange c (erun c s evs)).
-  { induction evs as [|e evs IH]; intros s R; cbn [erun]; [assumption|]. apply IH, estep_range, R. }
-  apply G. unfold erange, einit. cbn [e2 e_last]. lia.
+  { induction evs as [|e evs IH]; intros s R; cbn [erun]; [assumption|]. apply IH. unfold estep. apply ehit_range, R. }
+  apply G. unfold erange, einit. cbn [e_last]. lia.
 Qed.
 
 (* every counted ball was an accepted hit: count = number of entrance activities *)
-Lemma ehit_acts c s t : e_last s = e_nent s -> e_last (ehit c s t) = e_nent (ehit c s t).
+Lemma ehit_acts c s t k : e_last s = e_nent s -> e_last (ehit c s t k) = e_nent (ehit c s t k).
 Proof.
-  intros H. unfold ehit. destruct (t <? e_until s); [assumption|].
+  intros H. unfold ehit. destruct (in_window (e_win s) k t); [assumption|].
   destruct (e_cap c <=? e_last s); cbn [e_last e_nent]; lia.
 Qed.
+
+(* a hit through an entrance whose OWN window is not open is counted while there is room, whatever the windows of the
+   other entrances *)
+Lemma ehit_counts c s t k :
+  in_window (e_win s) k t = false -> e_last s < e_cap c -> e_last (ehit c s t k) = e_last s + 1.
+Proof.
+  intros W R. unfold ehit. rewrite W. destruct (e_cap c <=? e_last s) eqn:E; [apply Z.leb_le in E; lia|]. reflexivity.
+Qed.
+
+(* a hit opens / keeps the window of its own entrance only *)
+Lemma ehit_win_other c s t k k' : k' <> k -> wlook k' (e_win (ehit c s t k)) = wlook k' (e_win s).
+Proof.
+  intros N. unfold ehit. destruct (in_window (e_win s) k t); [reflexivity|].
+  assert (Q : (k =? k') = false) by (apply Z.eqb_neq; congruence).
+  destruct (0 <? e_ignore c); destruct (e_cap c <=? e_last s); cbn [e_win wlook]; rewrite ?Q; reflexivity.
+Qed.
+
+(* balls that come in through pairwise different entrances are all counted (up to the capacity), however close together
+   and whatever the ignore window *)
+Lemma distinct_entrances_all_counted_l c evs :
+  NoDup (map ename evs) -> Z.of_nat (length evs) <= e_cap c ->
+  e_last (erun c einit evs) = Z.of_nat (length evs).
+Proof.
+  assert (G : forall s, (forall e, In e evs -> wlook (ename e) (e_win s) = None) -> NoDup (map ename evs) ->
+                        e_last s + Z.of_nat (length evs) <= e_cap c ->
+                        e_last (erun c s evs) = e_last s + Z.of_nat (length evs)).
+  { induction evs as [|e evs IH]; intros s W ND L; cbn [erun length]; [cbn; lia|].
+    cbn [map] in ND. inversion ND as [|? ? Hn ND']; subst.
+    cbn [length] in L. rewrite Nat2Z.inj_succ in *.
+    assert (Wn : in_window (e_win s) (ename e) (etime e) = false).
+    { unfold in_window. rewrite (W e) by (left; reflexivity). reflexivity. }
+    rewrite IH; [| | assumption |].
+    - unfold estep. rewrite ehit_counts by (assumption || lia). lia.
+    - intros e' He'. unfold estep. rewrite ehit_win_other.
+      + apply W. right; assumption.
+      + intros Q. apply Hn. rewrite <- Q. apply in_map. assumption.
+    - unfold estep. rewrite ehit_counts by (assumption || lia). lia. }
+  intros ND L. rewrite G; [reflexivity | reflexivity | assumption | cbn [einit e_last]; lia].
+Qed.
+
+Lemma two_entrances_example_l :
+  etrace (mke 3 3000) einit [EHit 0 0; EHit 500 1; EEvent 625; EHit 1000 0; EHit 3000 0]
+  = [[1; 1]; [2; 2]; [3; 3]; [3; 3]; [3; 3]].
+Proof. vm_compute. reflexivity. Qed.
 
 Lemma counter_run_example_l :
   ctrace (mkc 3 false 500 500 5000) (cinit (mkc 3 false 500 500 5000))
